@@ -37,7 +37,12 @@ def scenarios(ctx, rng):
         S("declared-short-mmap", mode, {"op": "writer", "cache": "<C>", "opts": {"size": 4097},
                                         "chunks": [ctx.data(d4097[:100])],
                                         **({"key": "k"} if mode.startswith("sync") else {})}, warm, d4097[:100])
+        # unusual layout: the cache's temp area lives on ANOTHER file system (symlink / mount), so the publishing
+        # rename cannot work; whatever the library does instead must not expose partial content either
+        S("write-warm-4097-tmp-on-other-fs", mode, {"op": "write", "cache": "<C>", "key": "k", "data": ctx.data(d4097)}, warm, d4097)
         if not ctx.quick or mode == "sync@astd":
+            S("write-present-1MiB-tmp-on-other-fs", mode, {"op": "write", "cache": "<C>", "key": "k2", "data": ctx.data(big)},
+              [{"op": "write", "cache": "<C>", "key": "k", "data": ctx.data(big)}], big)
             S("write-cold-0", mode, {"op": "write", "cache": "<C>", "key": "k", "data": ctx.data(b"")}, None, b"")
             S("write-xxh3-warm", mode, {"op": "write", "cache": "<C>", "key": "k", "algo": "xxh3", "data": ctx.data(d4097)},
               warm, d4097, "xxh3")
@@ -70,12 +75,23 @@ def run(ctx):
         tdir = os.path.join(work, f"t{si}")
         os.makedirs(tdir)
         crash.build_template(ctx, sc, tdir)
+        ext = None
+        if sc.name.endswith("tmp-on-other-fs"):
+            import tempfile, shutil
+            ext = tempfile.mkdtemp(prefix="cv-C03-othertmp-", dir="/tmp" if work.startswith("/dev/shm") else "/dev/shm")
+            tc = os.path.join(tdir, "cache")
+            os.makedirs(tc, exist_ok=True)
+            shutil.rmtree(os.path.join(tc, "tmp"), ignore_errors=True)
+            os.symlink(ext, os.path.join(tc, "tmp"))
+        roots_extra = [ext] if ext else []
         # baseline
         bdir = os.path.join(work, f"b{si}")
         cache = crash.instantiate(tdir, bdir)
-        base = sysm.run([crash.oneshot_cmd(sc, cache)], [cache], work, timeout=60)
+        base = sysm.run([crash.oneshot_cmd(sc, cache)], [cache] + roots_extra, work, timeout=60)
         resp = base.responses(0)
         rejected = sc.name.startswith("declared-short") and resp and ev.variant(resp[0]) == "SizeMismatch"
+        if ext and resp and ev.variant(resp[0]) == "IoError":
+            rejected = True          # refusing to publish across file systems is a legitimate outcome
         if not resp or not (ev.is_ok(resp[0]) or rejected) or not base.final:
             ctx.inconc(f"baseline of scenario {sc.name}@{sc.mode} failed: {resp[:1]} rc={base.rc}")
             continue
@@ -103,11 +119,11 @@ def run(ctx):
                     jobs.append((n, k, rep))
         total_points += len(jobs)
 
-        def one(job, sc=sc, si=si, tdir=tdir, xx=xx, sri=sri):
+        def one(job, sc=sc, si=si, tdir=tdir, xx=xx, sri=sri, roots_extra=roots_extra):
             n, k, rep = job
             rdir = os.path.join(work, f"r{si}-{n}-{k}-{rep}")
             cache = crash.instantiate(tdir, rdir)
-            res = sysm.run([crash.oneshot_cmd(sc, cache)], [cache], work, kill_at=n, torn=k, timeout=60)
+            res = sysm.run([crash.oneshot_cmd(sc, cache)], [cache] + roots_extra, work, kill_at=n, torn=k, timeout=60)
             probs = ref.check_content_tree(cache, xx)
             present = os.path.exists(ref.content_path_sri(cache, sri))
             th = crash.tree_hash(cache)
@@ -163,6 +179,8 @@ def run(ctx):
                     ctx.violation(f"{sc.name}|{sc.mode}|exists", f"exists()={ex['ok']['exists']} but file present={present}", det)
             ctx.rm(rdir)
         ctx.count(f"visible_calls[{sc.name}@{sc.mode}]", T)
+        if ext:
+            ctx.rm(ext)
         ctx.rm(work)
     ctx.extra["distinct_on_disk_states_after_kill"] = len(states)
     ctx.extra["scenarios"] = [f"{s.name}@{s.mode}" for s in scs]
